@@ -653,7 +653,7 @@ fn c06(cfg: &SCfg, e: &Exec, f: &SFacts, vs: &mut Vec<Violation>, nt: &mut bool)
         // Known-finding discriminator: the request limiter was at its limit with the sink not
         // ready, so it returned without polling the inner channel at all (no read, hence no
         // expiry processing) in that poll.
-        let limiter_blocked = cfg.limit.is_some()
+        let limiter_blocked = limit_reached(cfg, e, f, ps0, pe)
             && !e.recs[ps0..pe]
                 .iter()
                 .any(|r| matches!(r, Rec::T { side: 1, op: Op::Next, .. }))
@@ -707,7 +707,7 @@ fn c06(cfg: &SCfg, e: &Exec, f: &SFacts, vs: &mut Vec<Violation>, nt: &mut bool)
                     *pt >= i.deadline_ns + ms
                         && *ps > i.handed
                         && *pe < *r
-                        && cfg.limit.is_some()
+                        && limit_reached(cfg, e, f, *ps, *pe)
                         && !e.recs[*ps..*pe].iter().any(|x| matches!(x, Rec::T { side: 1, op: Op::Next, .. }))
                         && e.recs[*ps..*pe].iter().any(|x| matches!(x, Rec::T { side: 1, op: Op::Ready, res: Res::Pending, .. }))
                 });
@@ -761,6 +761,26 @@ fn c06(cfg: &SCfg, e: &Exec, f: &SFacts, vs: &mut Vec<Violation>, nt: &mut bool)
             _ => {}
         }
     }
+}
+
+/// Was the request limiter at its limit during the stream poll recs[ps..pe]? The known C06
+/// finding is about exactly that state, so anything that happens below the limit must not be
+/// filed under its signature. Uses the count the channel itself reports right after the poll
+/// where the harness can read it, the reference model otherwise.
+fn limit_reached(cfg: &SCfg, e: &Exec, f: &SFacts, ps: usize, pe: usize) -> bool {
+    let Some(l) = cfg.limit else { return false };
+    for r in e.recs.iter().skip(pe).take(4) {
+        if let Rec::N("snap", v) = r {
+            return v[0] >= l as i128;
+        }
+        if matches!(r, Rec::PollStart(_)) {
+            break;
+        }
+    }
+    // (execute() route: the count is not observable; a request whose deadline has passed still
+    // counts, since the blocked limiter cannot have processed its expiry)
+    let maybe = f.inst.values().filter(|i| i.yielded.is_some() && tracked(f, i, ps).1).count();
+    maybe >= l
 }
 
 // ---------------------------------------------------------------------------------------------
@@ -1103,7 +1123,6 @@ fn c11(cfg: &SCfg, e: &Exec, f: &SFacts, vs: &mut Vec<Violation>, nt: &mut bool)
 // C12
 
 fn c12(cfg: &SCfg, e: &Exec, f: &SFacts, vs: &mut Vec<Violation>, nt: &mut bool) {
-    let _ = e;
     if bad(f, cfg, "C12-panic", vs) {
         return;
     }
@@ -1182,6 +1201,27 @@ fn c12(cfg: &SCfg, e: &Exec, f: &SFacts, vs: &mut Vec<Violation>, nt: &mut bool)
             v(vs, "C12-refused-executed", cfg, format!("refused request id {} was executed", i.id));
         }
     }
+    // "gets an error response": once everything has settled (Q1: nothing woken, the medium has
+    // taken whatever it was asked to flush) every refusal that was written has reached the peer
+    if let Some((q1, _)) = &f.q1 {
+        let broken = f.first_err.map(|(i, _)| i < *q1).unwrap_or(false)
+            || f.stream_err.as_ref().map(|e| e.0 < *q1).unwrap_or(false)
+            || f.stream_dropped.map(|d| d < *q1).unwrap_or(false);
+        if !broken {
+            for i in f.inst.values() {
+                let Some(w) = i.throttled else { continue };
+                let seen = e.recs[w..*q1].iter().any(|r| matches!(r, Rec::PeerSaw { side: 1, msg: Msg::Resp { id, body: Err(_) } } if *id == i.id));
+                if !seen {
+                    v(
+                        vs,
+                        "C12-refusal-not-delivered",
+                        cfg,
+                        format!("the refusal for request id {} was written but never reached the peer (left unflushed with the channel idle)", i.id),
+                    );
+                }
+            }
+        }
+    }
     let _: BTreeSet<u32> = BTreeSet::new();
 }
 
@@ -1215,6 +1255,9 @@ pub fn configs(prop: SProp, tier: Tier) -> Vec<SCfg> {
     let thorough = tier == Tier::Thorough;
     let mut out = Vec::new();
     let sinks: &[(Flavour, usize)] = &[(Flavour::Always, 1), (Flavour::Coupled, 1), (Flavour::FlushFrees, 1)];
+    // C12 also needs a buffering sink that is not full after one refusal (nothing but an explicit
+    // flush then transmits it)
+    let sinks_c12: &[(Flavour, usize)] = &[(Flavour::Always, 1), (Flavour::Coupled, 1), (Flavour::FlushFrees, 1), (Flavour::Coupled, 2)];
     match prop {
         SProp::C02 => {
             let alpha = S_CANCEL | S_FINISH | S_DRAIN | S_EOF | S_ADVANCE | S_DROPH | S_DUP;
@@ -1467,7 +1510,7 @@ pub fn configs(prop: SProp, tier: Tier) -> Vec<SCfg> {
         SProp::C12 => {
             let alpha = S_CANCEL | S_FINISH | S_DRAIN | S_DUP;
             for l in 0..=3usize {
-                for (fl, cap) in sinks {
+                for (fl, cap) in sinks_c12 {
                     for n in 1..=4usize {
                         if !thorough && n == 4 && l != 2 {
                             continue;
